@@ -365,6 +365,11 @@ func (g *Gen) link(depth int, image bool) inline {
 	switch kind {
 	case 0: // inline
 		d, t := dests[g.pick(len(dests))], titles[g.pick(len(titles))]
+		if g.ml && g.chance(1, 5) {
+			// a title that continues on the next line (inside a container the continuation carries the container's markers)
+			t = multiLineTitles[g.pick(len(multiLineTitles))]
+			g.St.add("multiline:inline-title")
+		}
 		sp := strings.Repeat(" ", g.pick(2))
 		md = bang + "[" + tm + "](" + sp + d.md + t.md + sp + ")"
 		href, tattr = d.href, titleAttr(t)
